@@ -106,7 +106,40 @@ def famB_caps(rng, tier, kinds=('000', '010', '001', '011')):
     return famB_profile(rng, tier, kinds=kinds, cap_rate=0.6, lets_rate=0.6, reps=1)
 
 
-B_FAMILIES = {'profile': famB_profile, 'fail': famB_fail, 'wrap': famB_wrap, 'caps': famB_caps}
+def famB_alive(rng, tier, kinds=('001', '011')):
+    """thread kinds: every active branch of a multi-branch step waits inside its first callback until ALL of them are there"""
+    return famB_profile(rng, tier, kinds=kinds, fail_rate=0.0, handler_rate=0.2, lets_rate=0.2, nmax=3, dmax=3, reps=1, meet=True)
+
+
+def famB_panic(rng, tier, kinds=('000', '010', '001', '011')):
+    progs = famB_profile(rng, tier, kinds=kinds, fail_rate=0.05, handler_rate=0.3, nmax=3, dmax=3, reps=2, boom_rate=0.25)
+    return progs
+
+
+ALIAS = {'001': 'spawn', '011': 'try_spawn', '101': 'async_spawn', '111': 'try_async_spawn'}
+
+
+def famB_pairs(rng, tier):
+    """the same program under the plain macro, its spawn counterpart and the alias of that (sync kinds)"""
+    import copy
+    out = []
+    base = famB_profile(rng, tier, kinds=('000', '010'), handler_rate=0.4, nmax=3, dmax=3, reps=1, cap_rate=0.0)
+    for i, p in enumerate(base):
+        p.pair = i
+        out.append(p)
+        q = copy.copy(p)
+        q.kind = p.kind[:2] + '1'
+        q.pair = i
+        out.append(q)
+        r = copy.copy(q)
+        r.macro = ALIAS[q.kind]
+        r.pair = i
+        out.append(r)
+    return out
+
+
+B_FAMILIES = {'profile': famB_profile, 'fail': famB_fail, 'wrap': famB_wrap, 'caps': famB_caps, 'alive': famB_alive,
+              'panic': famB_panic, 'pairs': famB_pairs}
 
 
 def canon_log(entries):
@@ -129,7 +162,7 @@ def run_B(fams, rng, tier, name='b', fam_args=None):
     cases = []
     for i, p in enumerate(progs):
         mode = 'async' if p.kind[0] == '1' else 'sync'
-        cases.append(('%d' % i, gen.KIND_NAME[p.kind], p.render(), mode))
+        cases.append(('%d' % i, getattr(p, 'macro', None) or gen.KIND_NAME[p.kind], p.render(), mode))
     res, failures = rt.build_and_run(name, cases)
     impl = jv.run_impl([(c[0], progs[int(c[0])].kind, c[2]) for c in cases], tag='Bimpl')
     out, items, idx = [], [], []
@@ -325,6 +358,37 @@ def nontrivial(text):
     return (',' in text) or ('~' in text) or (len(text.split()) > 3)
 
 
+def extract_macro_table():
+    """(name, is_async, is_try, is_spawn) for every #[proc_macro] entry point of /repo/join/src/lib.rs, in source order"""
+    src = open(os.path.join(jv.REPO, 'join', 'src', 'lib.rs')).read()
+    out = []
+    for m in re.finditer(r'#\[proc_macro\]\s*pub fn (\w+)\s*\(.*?\n\}', src, flags=re.S):
+        body = m.group(0)
+        f = {k: re.search(r'%s:\s*(true|false)' % k, body) for k in ('is_async', 'is_try', 'is_spawn')}
+        if all(f.values()):
+            out.append((m.group(1),) + tuple(f[k].group(1) == 'true' for k in ('is_async', 'is_try', 'is_spawn')))
+    return out
+
+
+def check_macro_table(rep):
+    tab = extract_macro_table()
+    coq = '[' + '; '.join('(%s, mkConfig %s %s %s)' % (jv.cs(n), jv.cbool(a), jv.cbool(t), jv.cbool(sp)) for (n, a, t, sp) in tab) + ']'
+    v = jv.run_coq_shards([('', 'N.of_nat (table_diff macro_table %s)' % coq)],
+                          header='From Coq Require Import NArith.\nFrom Join Require Import Tok Ast Macros.\n', tag='M')[0]
+    rep['families']['lib.rs macro table'] = {'entries': len(tab), 'equal_to_model': v == 0}
+    rep['A_cases'] += 1
+    if v != 0:
+        doc = {'try_join': (False, True, False), 'try_join_async': (True, True, False), 'try_join_spawn': (False, True, True),
+               'try_spawn': (False, True, True), 'try_join_async_spawn': (True, True, True), 'try_async_spawn': (True, True, True),
+               'join': (False, False, False), 'join_async': (True, False, False), 'join_spawn': (False, False, True),
+               'spawn': (False, False, True), 'join_async_spawn': (True, False, True), 'async_spawn': (True, False, True)}
+        bad = [(n, (a, t, sp)) for (n, a, t, sp) in tab if doc.get(n) != (a, t, sp)]
+        rep['A_diffs'].append({'family': 'macro-table', 'kind': '-', 'text': 'join/src/lib.rs', 'code': v, 'status': 'diff'})
+        rep['witnesses'].append({'macro': bad[0][0] if bad else '?', 'dsl': '(any input)',
+                                 'why': 'join/src/lib.rs configures %s; documented (is_async, is_try, is_spawn) = %s' % (
+                                     bad[:3], [doc.get(b[0]) for b in bad[:3]])})
+
+
 def run_property(pid, P, rng, tier, seed, escalate=False, only_B=False):
     rep = {'A_cases': 0, 'A_diffs': [], 'B_cases': 0, 'B_diffs': [], 'mm_diffs': 0, 'witnesses': [], 'families': {},
            'samples': [], 'distinct_nontrivial': 0, 'rule': '', 'escalated': escalate}
@@ -377,11 +441,35 @@ def run_property(pid, P, rng, tier, seed, escalate=False, only_B=False):
                                              'expected_by_spec': ' '.join(exp['spec']), 'observed': ' '.join(d['observed']),
                                              'operand_table': d['prog'].table.coq()[:2000]})
         rep['B_compile_rejected'] = rejected
+        if P.get('pairs'):
+            groups = collections.defaultdict(list)
+            for d in res:
+                if hasattr(d['prog'], 'pair'):
+                    groups[d['prog'].pair].append(d)
+            for gid, ds in groups.items():
+                ok = [d for d in ds if d['observed'] is not None]
+                if len(ok) != len(ds) and ok:
+                    bad = [d for d in ds if d['observed'] is None][0]
+                    rep['B_diffs'].append({'family': 'pairs', 'macro': bad['macro'], 'text': bad['text'], 'code': -1,
+                                           'expected': 'compiles like its counterpart', 'observed': 'rejected: %s' % bad['compile_error']})
+                    rep['witnesses'].append({'macro': bad['macro'], 'dsl': bad['text'],
+                                             'why': 'compiles under %s but not under %s: %s' % (ok[0]['macro'], bad['macro'], bad['compile_error'])})
+                    continue
+
+                def norm(d):
+                    return (d['observed'][0], sorted(e.split('@', 1)[-1] for e in d['observed'][1:]))
+                for d in ok[1:]:
+                    if norm(d) != norm(ok[0]):
+                        rep['witnesses'].append({'macro': d['macro'], 'dsl': d['text'],
+                                                 'why': '%s and %s disagree on the same branches: %s vs %s' % (
+                                                     ok[0]['macro'], d['macro'], ' '.join(ok[0]['observed']), ' '.join(d['observed']))})
         # typed programs are well typed by construction: a compile error is itself a finding for C01-like claims,
         # but the typed generator is not perfect; report, do not alarm
         for d in res[:3]:
             if d['observed']:
                 rep['samples'].append({'stage': 'B', 'macro': d['macro'], 'dsl': d['text'][:300], 'observed': ' '.join(d['observed'])[:300]})
+    if P.get('macro_table') and not only_B:
+        check_macro_table(rep)
     if P.get('B4'):
         r4 = run_B4(pid, P, seed, tier)
         rep['B_cases'] += r4['runs']
